@@ -1,11 +1,12 @@
-import Lemmas.Conv128AsFloatUlp
-import Lemmas.Conv128Rat
+import Lemmas.Conv128AsFloatUlp2
+import Lemmas.Conv128RatValue
 /-! # C02 — 128-bit integers convert and print losslessly and saturate when out of range
 
 Property theorems only.  The executable model is `Model/Conv128.lean` (namespace `Conv`) over the binary64 model
 `GoSem/F64.lean`; it is the code the driver `drv_c02` runs against the Go functions on every check.  Helper lemmas:
-`Lemmas/Conv128*.lean`, `Lemmas/F64*.lean` (the grammar of integer literals `IsPlainIntLiteral` is in
-`Lemmas/Conv128Grammar.lean`, the rounding facts of `roundRatN` in `Lemmas/F64Nearest.lean`).  `U128.toNat` / `I128.toInt` are the mathematical values of the two words.
+`Lemmas/Conv128*.lean`, `Lemmas/F64*.lean` (the grammar of integer literals is in `Lemmas/Conv128Grammar.lean`
+(plain), `Lemmas/Conv128RatGrammar.lean` and `Lemmas/Conv128RatValue.lean` (exponent form; the only Mathlib user, for
+`ℚ`); the rounding facts of `roundRatN` in `Lemmas/F64Nearest.lean`).  `U128.toNat` / `I128.toInt` are the mathematical values of the two words.
 `big.Int` is `Int`; a `float64` is a `GoSem.F64` (`WF` = decoded from a 64-bit pattern, `decode_wf`). -/
 namespace C02
 open Conv GoSem GoSem.F64
@@ -72,35 +73,55 @@ theorem fromString_rejects_plain (s : List Char) (z : Int) (h : hasExpChar s = f
   rw [h]
   exact bigIntSetString_iff s z
 
-/-- `fromString_rejects`, texts containing `e`/`E` (the `big.Rat.SetString` branch), **both directions**, relative to
-    the transcribed scanner of `big.Rat`: the text is accepted with value `z` exactly when it contains no `/` and the
-    scanner reads it as the fraction `n/d` (mantissa with optional radix point, decimal or binary exponent) whose exact
-    value is the integer `z` (`n = z·d`, `d > 0`); a non-integral value, a fraction `a/b` and any text the scanner
-    refuses are rejected. -/
+/-- `fromString_rejects`, texts containing `e`/`E` (the `big.Rat.SetString` branch), **both directions**: the text is
+    accepted with value `z` exactly when it contains no `/` and is an exponent-form literal whose exact value is the
+    integer `z` — `Conv.IsExpIntLiteral` (`Lemmas/Conv128RatValue.lean`, `Lemmas/Conv128RatGrammar.lean`): an optional
+    sign; a mantissa = optional `0b`/`0o`/`0x`, digits of that base with single underscores between digits (or after
+    the prefix) and at most one radix point not next to an underscore, at least one digit; an optional exponent =
+    `e`/`E` (power of 10, not after a hexadecimal mantissa) or `p`/`P` (power of 2), optional sign, decimal digits with
+    single inner underscores, fitting an `int64`; the collected powers of 5 and 2 within `math/big`'s limits
+    (10^6 and 10^7); and `z = ± mantissa · base^(−fraction digits) · (10|2)^exponent` as rational numbers.
+    So a non-integral value (`1.55e1`), a fraction `a/b`, and any malformed text are rejected. -/
 theorem fromString_rejects_exp (s : List Char) (z : Int) (h : hasExpChar s = true) :
-    parseToBigInt s = some z ↔
-      hasSlash s = false ∧ ∃ n d, bigRatSetString s = some (n, d) ∧ 0 < d ∧ n = z * d := by
-  rw [parseToBigInt_exp_iff s z h]
-  constructor
-  · rintro ⟨h1, n, d, h2, h3⟩
-    exact ⟨h1, n, d, h2, bigRatSetString_den_pos s n d h2, h3⟩
-  · rintro ⟨h1, n, d, h2, _, h3⟩
-    exact ⟨h1, n, d, h2, h3⟩
+    parseToBigInt s = some z ↔ hasSlash s = false ∧ IsExpIntLiteral s z := by
+  have := parseToBigInt_iff s z
+  unfold IsIntLiteral at this
+  rw [h] at this
+  simpa using this
 
-/-- what is still open of `fromString_rejects`: one declarative grammar `IsIntLiteral` for *all* texts.  For texts
-    without `e`/`E` it is `IsPlainIntLiteral` (`fromString_rejects_plain`).  Missing is the declarative description of
-    the mantissa/exponent form read by `bigRatSetString` (digits with separators and one optional radix point after
-    an optional base prefix, `e`/`E`/`p`/`P` exponent with separators, the limits on the exponents) together with its
-    value `mantissa · base^(−fraction digits) · (10|2)^exponent`; `fromString_rejects_exp` reduces the clause to that
-    scanner, which is compared with `math/big` on every check run. -/
-def fromString_rejects_Statement (IsIntLiteral : List Char → Int → Prop) : Prop :=
-  ∀ s z, parseToBigInt s = some z ↔ IsIntLiteral s z
+/-- **`fromString_rejects`, complete**: for every text, `FromString` (both types) accepts it with the big-integer value
+    `z` exactly when the text is an integer literal of the grammar denoting `z` (`Conv.IsIntLiteral`: a plain literal
+    when there is no `e`/`E`, an exponent-form literal without `/` otherwise); every other text gives the error -/
+theorem fromString_rejects (s : List Char) (z : Int) : parseToBigInt s = some z ↔ IsIntLiteral s z :=
+  parseToBigInt_iff s z
+
+/-- constructor from string, complete specification over the grammar: a literal denoting `z` is converted to `z`
+    saturated to the type's range (`fromBigInt_exact_or_saturates_*`), and a text that is not a literal is an error
+    (`none`), after which `FromStringNoCheck` gives 0 -/
+theorem fromString_spec (s : List Char) :
+    (∀ z, IsIntLiteral s z →
+      U128.fromString s = some (U128.fromBigInt z) ∧ I128.fromString s = some (I128.fromBigInt z)) ∧
+    ((¬ ∃ z, IsIntLiteral s z) →
+      U128.fromString s = none ∧ I128.fromString s = none ∧
+      U128.fromStringNoCheck s = U128.zero ∧ I128.fromStringNoCheck s = I128.zero) := by
+  constructor
+  · intro z hz
+    have := (fromString_rejects s z).mpr hz
+    unfold U128.fromString I128.fromString
+    rw [this]; exact ⟨rfl, rfl⟩
+  · intro hn
+    have : parseToBigInt s = none := by
+      cases hp : parseToBigInt s with
+      | none => rfl
+      | some z => exact absurd ⟨z, (fromString_rejects s z).mp hp⟩ hn
+    unfold U128.fromStringNoCheck I128.fromStringNoCheck U128.fromString I128.fromString
+    rw [this]; exact ⟨rfl, rfl, rfl, rfl⟩
 
 /-- `fromString_rejects`, character-class corollaries: the empty text is rejected; a text with an exponent character
     and a `/` is rejected (the fraction syntax of `big.Rat` is excluded); and a text without `e`/`E` is rejected unless it is an
     optional sign followed by a non-empty run of ASCII letters, digits and underscores — so blanks, quotes (a JSON
     string), radix points, a second sign, control characters and non-ASCII bytes are never accepted there. -/
-theorem fromString_rejects_partial (s : List Char) :
+theorem fromString_rejects_charclass (s : List Char) :
     parseToBigInt [] = none ∧
     (hasExpChar s = true → hasSlash s = true → parseToBigInt s = none) ∧
     (hasExpChar s = false → ∀ z, parseToBigInt s = some z →
@@ -326,7 +347,7 @@ theorem asFloat64_within_ulp_u (u : U128) :
   obtain ⟨b1, b2⟩ := hb he
   have c1 := Int.ofNat_le.mpr b1
   have c2 := Int.ofNat_le.mpr b2
-  push_cast at c1 c2
+  simp only [Int.natCast_add, Int.natCast_mul, Int.natCast_pow, Nat.cast_ofNat] at c1 c2
   omega
 
 /-- `asFloat64_within_ulp` (Int128), all 2^128 values: the result is `±m·2^e` with the sign of the value (the sign is
@@ -343,10 +364,27 @@ theorem asFloat64_within_ulp_i (i : I128) :
   obtain ⟨b1, b2⟩ := hb he
   have c1 := Int.ofNat_le.mpr b1
   have c2 := Int.ofNat_le.mpr b2
-  push_cast at c1 c2
+  simp only [Int.natCast_add, Int.natCast_mul, Int.natCast_pow, Nat.cast_ofNat] at c1 c2
   by_cases hn : i.toInt < 0
   · rw [if_pos hn, Int.neg_mul]; omega
   · rw [if_neg hn]; omega
+
+/-- `asFloat64_within_ulp`, stricter reading (the unit in the last place *of the exact value*): for `x ≥ 2^53` in the
+    binade `2^(52+k) ≤ x < 2^(53+k)`, whose unit is `2^k`, the result `m·2^e` of `Uint128.AsFloat64` satisfies
+    `|m·2^e − x| ≤ 2^k`.  (It differs from `asFloat64_within_ulp_u` only when the result is rounded up to a power of
+    two, where the result's own unit is `2^(k+1)`.) -/
+theorem asFloat64_within_ulp_of_value_u (u : U128) (hbig : 2^53 ≤ u.toNat) :
+    ∃ m e k, u.asFloat64 = .fin false m e ∧ 0 ≤ e ∧ 2^(52 + k) ≤ u.toNat ∧ u.toNat < 2^(53 + k) ∧
+      m * 2^e.toNat ≤ u.toNat + 2^k ∧ u.toNat ≤ m * 2^e.toNat + 2^k :=
+  U128.asFloat64_ulp_of_value u hbig
+
+/-- the same for `Int128.AsFloat64` on magnitudes: `| m·2^e − |x| | ≤ 2^k` for `2^(52+k) ≤ |x| < 2^(53+k)`, the result
+    being `±m·2^e` with the sign of `x` -/
+theorem asFloat64_within_ulp_of_value_i (i : I128) (hbig : 2^53 ≤ i.toInt.natAbs) :
+    ∃ m e k, i.asFloat64 = .fin (decide (i.toInt < 0)) m e ∧ 0 ≤ e ∧
+      2^(52 + k) ≤ i.toInt.natAbs ∧ i.toInt.natAbs < 2^(53 + k) ∧
+      m * 2^e.toNat ≤ i.toInt.natAbs + 2^k ∧ i.toInt.natAbs ≤ m * 2^e.toNat + 2^k :=
+  I128.asFloat64_ulp_of_value i hbig
 
 /-! ## non-vacuity -/
 
@@ -359,6 +397,7 @@ example : parseToBigInt ['1', 'e', '2'] = some 100 := by decide
 /-- the grammar is inhabited on both sides: `-0x_1f` is a literal denoting −31; `1__0` is not a literal at all -/
 example : IsPlainIntLiteral ['-', '0', 'x', '_', '1', 'f'] (-31) :=
   (fromString_rejects_plain _ _ (by decide)).mp (by decide)
+example : IsIntLiteral ['1', '.', '5', 'e', '1'] 15 := (fromString_rejects _ _).mp (by decide)
 example : ¬ ∃ z, IsPlainIntLiteral ['1', '_', '_', '0'] z := fun ⟨z, h⟩ => by
   have := (fromString_rejects_plain _ z (by decide)).mpr h
   have hn : parseToBigInt ['1', '_', '_', '0'] = none := by decide
